@@ -140,6 +140,10 @@ func (d *uintDecoder) DecodeStream(s *Stream, depth int64, p unsafe.Pointer) err
 	if bytes == nil {
 		return nil
 	}
+	if numberContinues(s) {
+		// a fraction or an exponent follows: the number is not an integer literal
+		return d.typeError(bytes, s.totalOffset())
+	}
 	u64, err := d.parseUint(bytes)
 	if err != nil {
 		return d.typeError(bytes, s.totalOffset())
